@@ -9,6 +9,7 @@ package c03b
 
 import (
 	"context"
+	"database/sql"
 	"fmt"
 	"os"
 	"sort"
@@ -182,6 +183,41 @@ func RunB(r *rep.Run) {
 			} else if heldInTx != 0 {
 				fail("local-locks-kept-on-conflict", fmt.Sprintf("explicit local transaction: the locking read failed (%v) but its local transaction still holds %d row lock(s)", r3err, heldInTx))
 			}
+			// the reader first writes the same rows in its own local transaction (their keys are only collected, nobody has
+			// confirmed them yet) and then reads them FOR UPDATE: the coordinator must still be asked, and must refuse
+			mark = len(e.TC.Events())
+			var r4err, w4err error
+			tm.WithGlobalTx(context.Background(), &tm.GtxConfig{Name: "c03b-writer-reader-tx"}, func(ctx context.Context) error {
+				tx, err := e.AT.BeginTx(ctx, nil)
+				if err != nil {
+					w4err = err
+					return err
+				}
+				if _, w4err = tx.ExecContext(ctx, t.Upd+" WHERE "+wh, whc.Args...); w4err == nil {
+					rows, err := tx.QueryContext(ctx, "SELECT * FROM "+t.Name+" WHERE "+wh+" FOR UPDATE", whc.Args...)
+					if err == nil {
+						for rows.Next() {
+						}
+						rows.Close()
+					}
+					r4err = err
+				}
+				tx.Rollback()
+				return fmt.Errorf("reader gives up")
+			})
+			if w4err == nil {
+				q4 := keysOf(e.TC.Events(), "query", mark)
+				switch {
+				case len(q4) == 0:
+					fail("lock-query-missing", fmt.Sprintf("after writing the same rows in its own local transaction the locking read sent no GlobalLockQuery (err: %v)", r4err))
+				case strings.Join(dedup(q4), ",") != strings.Join(dedup(writeKeys), ","):
+					fail("key-text-differs", fmt.Sprintf("read after own write, WHERE %s %v: write path registered %v, the locking read asked about %v", wh, whc.Args, writeKeys, q4))
+				case r4err == nil:
+					fail("conflict-not-reported", "read after own write: the rows are globally locked by another transaction, yet the locking read succeeded")
+				}
+			} else {
+				r.Count("partB_own_write_refused", 1)
+			}
 			release()
 			// after the writer is over (rolled back, locks released) the read succeeds
 			rolled := true
@@ -224,6 +260,78 @@ func RunB(r *rep.Run) {
 		}
 	}
 	orderedReads(r, e)
+	multiTable(r, e)
+}
+
+// multiTable: one local transaction (one branch) that writes rows of two tables. The lock keys it registers must be the
+// union of what each statement registers when it runs alone - in particular when rows of the two tables have the same
+// key text (t_int:1 and t_chr:1; t_chr:ab and t_bin:ab).
+func multiTable(r *rep.Run, e *sys.Env) {
+	full := map[string]string{"t_int": "id >= 1", "t_comp": "a >= 1", "t_chr": "v >= 1", "t_bin": "v >= 1"}
+	reset := func() bool {
+		e.Srv.Restore(nil)
+		e.TC.ResetState()
+		for _, t := range tables {
+			if _, err := e.Bare.Exec(t.Insert); err != nil {
+				r.Broken = fmt.Sprintf("%s: %v", t.Insert, err)
+				return false
+			}
+		}
+		sys.TakeErrors()
+		return true
+	}
+	alone := map[string][]string{}
+	for _, t := range tables {
+		if !reset() {
+			return
+		}
+		tm.WithGlobalTx(context.Background(), &tm.GtxConfig{Name: "c03b-alone"}, func(ctx context.Context) error {
+			_, err := e.AT.ExecContext(ctx, t.Upd+" WHERE "+full[t.Name])
+			return err
+		})
+		alone[t.Name] = dedup(keysOf(e.TC.Events(), "register", 0))
+	}
+	for _, a := range tables {
+		for _, b := range tables {
+			if a.Name == b.Name {
+				continue
+			}
+			if !reset() {
+				return
+			}
+			r.Eval(true)
+			r.Count("partB_cases", 1)
+			var err error
+			tm.WithGlobalTx(context.Background(), &tm.GtxConfig{Name: "c03b-two-tables"}, func(ctx context.Context) error {
+				var tx *sql.Tx
+				if tx, err = e.AT.BeginTx(ctx, nil); err != nil {
+					return err
+				}
+				for _, t := range []table{a, b} {
+					if _, err = tx.ExecContext(ctx, t.Upd+" WHERE "+full[t.Name]); err != nil {
+						tx.Rollback()
+						return err
+					}
+				}
+				err = tx.Commit()
+				return err
+			})
+			got := dedup(keysOf(e.TC.Events(), "register", 0))
+			want := append(append([]string{}, alone[a.Name]...), alone[b.Name]...)
+			sort.Strings(want)
+			want = dedup(want)
+			loc := map[string]interface{}{"tables": []string{a.Name, b.Name}}
+			if err != nil {
+				r.Violate("partB/two-table-branch-failed/"+a.Name+"+"+b.Name, clauseText, loc, err.Error()+" | client errors: "+strings.Join(sys.TakeErrors(), " || "))
+			} else if strings.Join(got, ",") != strings.Join(want, ",") {
+				r.Violate("partB/two-table-keys/"+a.Name+"+"+b.Name, "the lock keys sent with the branch registration name every written row", loc,
+					fmt.Sprintf("one local transaction wrote %s and %s: registered %v, the statements alone register %v", a.Name, b.Name, got, want))
+			}
+			if n := e.Srv.HeldLocks(); n != 0 {
+				e.Srv.Crash()
+			}
+		}
+	}
 }
 
 // orderedReads: a locking read with ORDER BY and LIMIT must ask the coordinator about the rows it returns, not about the
